@@ -91,6 +91,7 @@ func runC02(c *Ctx) {
 	c.rule("copier-exhaustive", "the copier's dispatcher routes every reference-bearing kind {Struct, Ptr, Interface, Map, Slice, Array} to a handler", 1)
 	c.rule("copier-all-exported", "the struct handler descends into a field exactly when its name is exported (a field skipped for any other reason - e.g. a dials tag - would stay aliased)", 1)
 	c.rule("copier-fresh", "in the pointer, map and slice handlers every return that has not installed freshly allocated storage (or a memo hit) into the output is explained by a nil input, an output that is already a different non-nil object, or an unsettable output; in the interface handler every reference-bearing payload kind is re-boxed from fresh storage", 4)
+	c.rule("copier-elements-descend", "the array handler (also used for slice backing arrays) hands every element 0 <= z < Len to the dispatcher in a loop with no other exit, a return that skips the loop is only reachable for element kinds that cannot hold references, and the map handler's entry loop ends only on exhaustion", 2)
 
 	k := loadCore(c)
 	if !k.ok {
@@ -169,22 +170,7 @@ func runC02(c *Ctx) {
 	c05ComposeFresh(c, k, "compose-fresh-base")
 
 	// ---- source-copied ------------------------------------------------------------------------
-	merge := w.fn("", "overlayer.overlayStruct")
-	for _, ci := range callsToFn(k.compose, merge) {
-		args := ci.Common().Args
-		ov := args[len(args)-1]
-		call, ok := ov.(*ssa.Call)
-		okc := false
-		if ok && (staticCallee(call) == origin(cp.valM) || staticCallee(call) == origin(cp.valF) || staticCallee(call) == origin(cp.real)) {
-			// made in this iteration, from the slot
-			okc = call.Block() == ci.Block() || inLoop(call)
-			fSlotVal := w.field("", "sourceValue", "value")
-			a := call.Call.Args[len(call.Call.Args)-1]
-			okc = okc && derivesAll(a, func(x ssa.Value) bool { _, ok := isFieldLoad(x, fSlotVal); return ok }, &flowOpts{through: map[string]bool{"(reflect.Value).Elem": true}})
-		}
-		c.check(okc, "source-copied", relName(k.compose), ci.Pos(), "the overlay operand is a fresh deep copy of the slot value",
-			"the overlay operand is not a per-stack deep copy of the slot value: versions would alias the source's value and each other")
-	}
+	c02SourceCopied(c, k, cp, "source-copied")
 
 	// ---- slots-read-only ------------------------------------------------------------------------
 	c05Slots2(c, k, "slots-read-only")
@@ -247,10 +233,10 @@ func runC02(c *Ctx) {
 	c02AllExported(c, cp, "copier-all-exported")
 
 	// ---- copier-fresh ----------------------------------------------------------------------------------------
-	for _, h := range []*ssa.Function{cp.hPtr, cp.hMap, cp.hSlice} {
-		c02Fresh(c, h)
-	}
-	c02FreshIface(c, cp.hIface)
+	c02CopierFreshAll(c, cp)
+
+	// ---- copier-elements-descend -----------------------------------------------------------------------------
+	c02ElementsDescend(c, cp, "copier-elements-descend")
 }
 
 func c05Slots2(c *Ctx, k *core, rule string) {
@@ -423,11 +409,23 @@ func runC03(c *Ctx) {
 	c.rule("single-memo", "no member of the component creates a fresh copier (newDeepCopier / package-level deepCopyValue / realDeepCopy): a fresh memo forgets cycles and sharing", 1)
 	c.rule("copier-all-exported", "the struct handler descends into a field exactly when its name is exported (a reference in a field skipped for any other reason keeps pointing into the input graph)", 1)
 	c.rule("fresh-out-per-descent", "inside loops of the component, the output location passed to a descent is allocated in the same iteration (the memo stores output locations, so a reused temporary would be overwritten)", 1)
+	c.rule("out-settable", "Ptr/Map payloads of interface values, and deepCopyValue, copy into an addressable temporary reflect.New(T).Elem() (the map handler honours its memo only for settable outputs)", 2)
+	c.rule("copier-fresh", "(shared with C02) references in the result are fresh: every exit of the pointer/map/slice handlers without fresh storage is explained by nil input / already-distinct output / unsettable output; interface payloads are re-boxed", 4)
+	c.rule("copier-elements-descend", "(shared with C02) every array/slice element and every map entry is visited", 2)
+	c.rule("source-copied", "(shared with C02) compose overlays a per-stack deep copy of every slot value, on every path", 1)
+	c.rule("compose-fresh-base", "(shared with C02) compose merges into a deep copy of the defaults made inside compose", 2)
 
 	cp := loadCopier(c)
 	if cp == nil {
 		return
 	}
+	if k := loadCore(c); k.ok {
+		c02SourceCopied(c, k, cp, "source-copied")
+		c05ComposeFresh(c, k, "compose-fresh-base")
+	}
+	c02CopierFreshAll(c, cp)
+	c02ElementsDescend(c, cp, "copier-elements-descend")
+	c03OutSettable(c, cp, "out-settable")
 	for f := range cp.scc {
 		c.analysed(relName(f))
 	}
